@@ -247,6 +247,8 @@ class Program:
             self._unqualify_module_access(m)
         for m in self.modules.values():
             self._index_defs(m)
+        from .consts import inline_new_constants
+        self.consts_inlined = inline_new_constants(self)
         from .renames import undo_renames
         self.renamed_back = undo_renames(self)
         from .params import canonical_params
